@@ -74,10 +74,13 @@ DDup == UNION {{ [f |-> File1(c), e |-> Expect({"DuplicatedAttribute", "InvalidA
                  d \in {"dup-wx:if", "dup-wx:for", "dup-wx:key", "dup-wx:for-item", "dup-wx:for-index", "dup-is", "dup-data", "dup-src",
                         "dup-module", "dup-name", "dup-slotname", "dup-wx:elif", "dup-wx:else"} }
 (* --- children under a childless element; missing src / module / is *)
-DStruct == { [f |-> File1(<<Mark(Elem("v", <<>>, <<>>), d[1])>>), e |-> Expect(d[2]), w |-> d[1]] :
-               d \in { <<"kids-include", {"ChildNodesNotAllowed"}>>, <<"kids-import", {"ChildNodesNotAllowed"}>>,
-                       <<"kids-slot", {"ChildNodesNotAllowed"}>>, <<"kids-template-is", {"ChildNodesNotAllowed"}>>,
-                       <<"kids-wxs-src", {"ChildNodesNotAllowed"}>>,
+(* (what the children are must not matter: an element, text, a binding, and each of them after a comment or white space) *)
+KidForms == {"elem", "text", "binding", "comment-elem", "comment-text", "ws-elem", "comment-comment-elem", "elem-comment"}
+DStruct == { [f |-> File1(<<Mark(Elem("v", <<>>, <<>>), d \o ":" \o k)>>), e |-> Expect({"ChildNodesNotAllowed"}), w |-> d \o " " \o k] :
+               d \in {"kids-include", "kids-import", "kids-slot", "kids-template-is"}, k \in KidForms }
+           \cup
+           { [f |-> File1(<<Mark(Elem("v", <<>>, <<>>), d[1])>>), e |-> Expect(d[2]), w |-> d[1]] :
+               d \in { <<"kids-wxs-src", {"ChildNodesNotAllowed"}>>,
                        <<"nosrc-include", {"MissingSourcePath"}>>, <<"nosrc-import", {"MissingSourcePath"}>>,
                        <<"nomodule-wxs", {"MissingModuleName"}>>, <<"nois-template", {"MissingModuleName"}>> } }
 
